@@ -176,6 +176,9 @@ class ExprMixin(object):
         mod = fr.module
         if mod is not None and name in vars(mod):
             return self.lift(vars(mod)[name])
+        if name.startswith('c_') and getattr(fr, 'c_mode', False):
+            from .cruntime import CFunction
+            return PyObj(CFunction(name[2:]))
         if hasattr(pybuiltins, name):
             return PyObj(getattr(pybuiltins, name))
         raise EngineError('unknown name %s' % name)
@@ -549,7 +552,8 @@ class ExprMixin(object):
             cb = self.const_int(b)
             if cb is not None and cb > 0:
                 return V(mkI(ai / bi), parse_spec('int'))
-            raise EngineError('symbolic floor division')
+            self.raise_exit(st, ZeroDivisionError, bi == 0, 0)
+            return V(mkI(z3.If(bi > 0, ai / bi, (-ai) / (-bi))), parse_spec('int'))
         if isinstance(op, pyast.BitAnd):
             cb = self.const_int(b)
             if cb is not None and cb > 0 and (cb & (cb - 1)) == 0:
